@@ -219,7 +219,7 @@ def vector(req):
     del dels[:wdels[0]]
     if req.get("viator"):
         adds = [a for a in adds if WARM_PORT not in a]        # (the two requests' commands may go out in either order)
-    obs = dict(rejected=rejected, nadd=len(adds), key=["", ""], ports=[], flags=[], cauth=[], hostname="", stored=[],
+    obs = dict(rejected=rejected, nadd=len(adds), key=["", ""], ports=[], flags=[], cauth=[], hostname="", stored=[], after=[],
                sid=SID, replykey=REPLY_KEY, **{"del": ""})
     if adds:
         toks = adds[0].split(" ")
@@ -264,6 +264,9 @@ def vector(req):
                 dels.pop()
             elif len(dels) == 1:
                 dels[0] = "DEL_ONION ?retry-not-sent"
+        # custody outlives the service: what the caller can still read from the object once Tor has removed it
+        pka = onion.private_key
+        obs["after"] = [] if pka is None else (["DISCARD-OBJECT", ""] if pka is DISCARD else split_key(pka))
         if dels:
             obs["del"] = dels[0].split(" ", 1)[1] if " " in dels[0] else ""
         if len(dels) > 1:
